@@ -117,9 +117,18 @@ def voronoi_clause(cl, rng, n, replay):
         variants.append(("scaled", coords * k, boundary * k))
         perm = rng.permutation(len(coords))
         variants.append(("permuted", coords[perm], boundary))
+        variants.append(("object asked about a smaller boundary first", coords, boundary))
         for what, cc, bb in variants:
             try:
-                w, idx = HvsrSpatial(cc).spatial_weights(bb)
+                obj = HvsrSpatial(cc)
+                if what.startswith("object asked"):
+                    # the answer for a boundary does not depend on what the object was asked before (another boundary keeps other sensors)
+                    ctr = np.asarray(bb).mean(axis=0)
+                    try:
+                        obj.spatial_weights(ctr + 0.55 * (np.asarray(bb) - ctr))
+                    except Exception:
+                        pass
+                w, idx = obj.spatial_weights(bb)
             except Exception as ex:
                 cl.fail("hvsrpy.hvsr_spatial.HvsrSpatial.spatial_weights", f"{what}: {type(ex).__name__}: {ex}", signature="voronoi:exception", variant=what)
                 return
